@@ -9,6 +9,7 @@ import asyncstdlib as A
 
 from ..loop import CTX, drive, Suspend
 from ..probes import Item, canon, SrcState, make_source, SyncSrc, Plan
+from ..tools import drop_stdlib_repolls
 
 ID = "C16"
 LEVEL = "exploration"
@@ -52,83 +53,108 @@ def cases(tier, seed, shard, nshards):
                "flav": rng.choice(["list", "async_gen", "async_class", "sync_iter"]), "susp": rng.choice([0, 0, 1])}
 
 
-def run_case(case, stats: Counter):
+def _key_impl(kname):
+    if kname is None:
+        return None
+    if kname.endswith("half"):
+        return lambda x: x.key // 2
+    return lambda x: x.key
+
+
+def gb_side(case, sync, fault=None, fnfl=None):
+    """Run the operation sequence on itertools.groupby (sync=True) or asyncstdlib.groupby.
+
+    Returns dict(results, log, src, fn).  ``fault``: tools.Fault on ("src", 0, k) or ("fn", 0, k).
+    The event log interleaves ("op", n) markers with the probes' pull / end / call / fault events.
+    """
+    from ..probes import FnState, make_fn
+    CTX.reset()
     keys = case["keys"]
     kname = case["key"]
-    calls_s, calls_a = [], []
-    # reference
-    items_s = [Item(k, (0, i)) for i, k in enumerate(keys)]
-    if kname is None:
-        gs = itertools.groupby(iter(items_s))
+    plan = Plan(0 if sync else case.get("susp", 0))
+    if fault is not None and fault.kind == "src":
+        plan = Plan(plan.susp, fault.use, fault.exc)
+    st = SrcState(0, [Item(k, (0, i)) for i, k in enumerate(keys)], plan, log=True)
+    fs = None
+    impl = _key_impl(kname)
+    if impl is not None:
+        fs = FnState("key", impl, 0 if sync else case.get("susp", 0))
+        if fault is not None and fault.kind == "fn":
+            fs.fault_at, fs.exc, fs.fault_phase = fault.use, fault.exc, fault.phase
+    results = []
+
+    def term(exc):
+        return ("raise", type(exc).__name__, bool(fault is not None and exc is fault.exc))
+
+    if sync:
+        src = SyncSrc(st)
+        gs = itertools.groupby(src, make_fn(fs, "def")) if fs is not None else itertools.groupby(src)
+        groups = []
+        for n, op in enumerate(case["ops"]):
+            CTX.ev("op", n)
+            try:
+                if op == "adv":
+                    try:
+                        k, g = next(gs)
+                        groups.append(g)
+                        results.append(("key", canon(k)))
+                    except StopIteration:
+                        results.append(("end",))
+                else:
+                    i = int(op[1:])
+                    if not groups or (i < 0 and -i > len(groups)) or (i >= 0 and i >= len(groups)):
+                        results.append(("nogroup",))
+                        continue
+                    try:
+                        results.append(("item", canon(next(groups[i]))))
+                    except StopIteration:
+                        results.append(("gend",))
+            except BaseException as exc:  # noqa: BLE001
+                results.append(term(exc))
+                break
     else:
-        def skey(x):
-            calls_s.append(x.uid)
-            return x.key // 2 if kname.endswith("half") else x.key
-        gs = itertools.groupby(iter(items_s), skey)
-    ref = []
-    groups = []
-    for op in case["ops"]:
-        if op == "adv":
-            try:
-                k, g = next(gs)
-                groups.append(g)
-                ref.append(("key", canon(k)))
-            except StopIteration:
-                ref.append(("end",))
-        else:
-            i = int(op[1:])
-            if not groups or (i < 0 and -i > len(groups)) or (i >= 0 and i >= len(groups)):
-                ref.append(("nogroup",))
-                continue
-            try:
-                ref.append(("item", canon(next(groups[i]))))
-            except StopIteration:
-                ref.append(("gend",))
-    # asyncstdlib
-    CTX.reset()
-    items_a = [Item(k, (0, i)) for i, k in enumerate(keys)]
-    st = SrcState(0, items_a, Plan(case.get("susp", 0)), log=False)
-    src = make_source(st, case["flav"])
-    got = []
+        src = make_source(st, case["flav"])
+        if fnfl is None:
+            fnfl = "async_def" if (kname or "").startswith("a") else "def"
 
-    async def main():
-        if kname is None:
-            ga = A.groupby(src)
-        elif kname.startswith("a"):
-            async def akey(x):
-                calls_a.append(x.uid)
-                if case.get("susp"):
-                    await Suspend("key", 1)
-                return x.key // 2 if kname.endswith("half") else x.key
-            ga = A.groupby(src, key=akey)
-        else:
-            def key(x):
-                calls_a.append(x.uid)
-                return x.key // 2
-            ga = A.groupby(src, key=key)
-        agroups = []
-        for op in case["ops"]:
-            if op == "adv":
+        async def main():
+            ga = A.groupby(src, key=make_fn(fs, fnfl)) if fs is not None else A.groupby(src)
+            agroups = []
+            for n, op in enumerate(case["ops"]):
+                CTX.ev("op", n)
                 try:
-                    k, g = await ga.__anext__()
-                    agroups.append(g)
-                    got.append(("key", canon(k)))
-                except StopAsyncIteration:
-                    got.append(("end",))
-            else:
-                i = int(op[1:])
-                if not agroups or (i < 0 and -i > len(agroups)) or (i >= 0 and i >= len(agroups)):
-                    got.append(("nogroup",))
-                    continue
-                try:
-                    got.append(("item", canon(await agroups[i].__anext__())))
-                except StopAsyncIteration:
-                    got.append(("gend",))
+                    if op == "adv":
+                        try:
+                            k, g = await ga.__anext__()
+                            agroups.append(g)
+                            results.append(("key", canon(k)))
+                        except StopAsyncIteration:
+                            results.append(("end",))
+                    else:
+                        i = int(op[1:])
+                        if not agroups or (i < 0 and -i > len(agroups)) or (i >= 0 and i >= len(agroups)):
+                            results.append(("nogroup",))
+                            continue
+                        try:
+                            results.append(("item", canon(await agroups[i].__anext__())))
+                        except StopAsyncIteration:
+                            results.append(("gend",))
+                except BaseException as exc:  # noqa: BLE001
+                    results.append(term(exc))
+                    break
 
-    try:
         drive(main())
-    except BaseException as exc:  # noqa: BLE001
-        got.append(("raised", type(exc).__name__, str(exc)[:80]))
+    log = [e for e in CTX.log if e[0] in ("op", "pull", "end", "call", "fault")]
+    return {"results": results, "log": log, "src": st, "fn": fs, "foreign": list(CTX.foreign)}
+
+
+def run_case(case, stats: Counter, compare_log=True):
+    keys = case["keys"]
+    kname = case["key"]
+    gen_flav = case["flav"].endswith("gen") or case["flav"] == "list"
+    ref_side = gb_side(case, True)
+    got_side = gb_side(case, False)
+    ref, got = ref_side["results"], got_side["results"]
     stats["histories"] += 1
     stats["operations"] += len(case["ops"])
     # classify interesting patterns
@@ -148,15 +174,25 @@ def run_case(case, stats: Counter):
     if partial:
         stats["group_items_taken"] += 1
     viols = []
-    if CTX.foreign:
-        viols.append({"key": "groupby/foreign-suspension", "msg": CTX.foreign[0]})
-    if ref != got or calls_s != calls_a:
+    if got_side["foreign"]:
+        viols.append({"key": "groupby/foreign-suspension", "msg": got_side["foreign"][0]})
+    head = f"groupby keys={keys} key={kname} flav={case['flav']} ops={case['ops']}"
+    if ref != got:
         d = next((i for i, (a, b) in enumerate(zip(ref, got)) if a != b), min(len(ref), len(got)))
-        what = "operations" if ref != got else "key-calls"
-        viols.append({"key": f"groupby/{what}",
-                      "msg": f"groupby keys={keys} key={kname} flav={case['flav']} ops={case['ops']}: first difference at "
-                             f"op {d}: itertools {ref[d] if d < len(ref) else None} vs asyncstdlib "
-                             f"{got[d] if d < len(got) else None}; key calls {calls_s} vs {calls_a}"[:900]})
+        viols.append({"key": "groupby/operations",
+                      "msg": f"{head}: first difference at op {d}: itertools {ref[d] if d < len(ref) else None} vs "
+                             f"asyncstdlib {got[d] if d < len(got) else None}"[:900]})
+    elif compare_log and case["flav"] != "list":
+        # laziness: pulls, end checks and key calls must happen during the same operation, in the same order
+        lr, lg = ref_side["log"], got_side["log"]
+        lr, skipped = drop_stdlib_repolls(lr, lg)
+        stats["stdlib_repolls_of_exhausted_source_skipped"] += skipped
+        stats["log_events_compared"] += len(lr)
+        if lr != lg:
+            d = next((i for i, (a, b) in enumerate(zip(lr, lg)) if a != b), min(len(lr), len(lg)))
+            viols.append({"key": "groupby/pull-and-key-call-order",
+                          "msg": f"{head}: event logs differ at {d}: itertools {lr[max(0, d - 3):d + 2]} vs asyncstdlib "
+                                 f"{lg[max(0, d - 3):d + 2]}"[:900]})
     return {"violations": viols, "nontrivial": stale or partial,
             "sig": (str(keys), kname, str(case["ops"]), case["flav"], case.get("susp", 0))}
 
